@@ -502,7 +502,7 @@ proof fn lemma_rst_plain_rte(ev: Seq<Ev>, i: int, s: RstSt, closing: Seq<u8>)
 // returns are a function of the archive and the part name only.
 // =====================================================================================================================
 #[verifier::external_body]
-#[verifier::reject_recursive_types(RS)]
+#[verifier::accept_recursive_types(RS)]
 pub struct ZipArchive<RS> { _p: core::marker::PhantomData<RS> }
 /// events of the XML part `path` of the archive; None: the archive has no such part
 pub uninterp spec fn part_events<RS>(zip: ZipArchive<RS>, path: Seq<char>) -> Option<Seq<Ev>>;
@@ -549,7 +549,7 @@ pub open spec fn sst_scan(ev: Seq<Ev>, i: int, s: SstSt, strict: bool) -> SstRes
         } else if e.kind is Start {
             if e.local() =~= n_si() {
                 let it = rst_item(ev, i + 1, e.name);
-                if it.ok && it.end > i && !(strict && it.text is None) {
+                if it.ok && i < it.end < ev.len() && !(strict && it.text is None) {
                     sst_scan(ev, it.end + 1, SstSt { items: s.items.push(it.text), ..s }, strict)
                 } else { sst_bad(i) }
             }
@@ -633,15 +633,51 @@ proof fn lemma_sst_end(ev: Seq<Ev>, i: int, s: SstSt, strict: bool)
             assert(strs(s0) + texts(st.items) =~= strs(s0));
         }
 //@@ loop 0
+            invariant_except_break
+                good ==> sst_scan(ev, xml.pos() as int, st, true) == tot,
             invariant
                 ev == xml.events(), tot == sst_part(ev, true),
                 good == (tot.ok && si_unprefixed(ev) && no_cdata(ev, 0, tot.end)),
                 b"si"@ == n_si(), b"sst"@ == n_sst(), n_si() != n_sst(),
-                good ==> sst_scan(ev, xml.pos() as int, st, true) == tot,
-                good ==> xml.pos() <= tot.end < ev.len(),
+                good ==> xml.pos() <= tot.end + 1 && tot.end < ev.len(),
                 good ==> strs(self.strings@) =~= strs(s0) + texts(st.items),
-                !good ==> true,
+            ensures
+                good ==> st.items == tot.items,
             decreases xml.left(),
+//@@ before /match xml\.read_event_into\(&mut buf\)/
+            let ghost pos = xml.pos() as int;
+            let ghost st0 = st;
+            proof {
+                if good {
+                    lemma_sst_end(ev, pos, st, true);
+                    let e = ev[pos];
+                    if !st.root { if e.kind is Start { st = SstSt { root: true, ..st }; } }
+                    else if st.skip > 0 {
+                        if e.kind is Start { st = SstSt { skip: st.skip + 1, ..st }; }
+                        else if e.kind is End { st = SstSt { skip: (st.skip - 1) as nat, ..st }; }
+                    } else if e.kind is Start && !(e.local() =~= n_si()) { st = SstSt { skip: 1, ..st }; }
+                }
+            }
+//@@ before /if let Some\(s\) = read_string/
+                    let ghost it = rst_item(ev, pos + 1, ev[pos].name);
+                    proof {
+                        assert(pos < ev.len() && ev[pos].kind is Start && e.ev() == ev[pos] && e.ev().local() =~= n_si());
+                        if good {
+                            assert(st0.root && st0.skip == 0);
+                            assert(it.ok && it.text is Some);
+                            lemma_sst_end(ev, it.end + 1, SstSt { items: st0.items.push(it.text), ..st0 }, true);
+                            assert(unprefixed(ev[pos].name));
+                            assert(no_cdata(ev, pos + 1, it.end));
+                        }
+                    }
+//@@ after /self\.strings\.push\(s\);\s*\}/
+                    proof {
+                        if good {
+                            st = SstSt { items: st0.items.push(it.text), ..st0 };
+                            assert(texts(st.items) =~= texts(st0.items).push(it.text->Some_0));
+                            assert(strs(self.strings@) =~= strs(s0) + texts(st.items));
+                        }
+                    }
 //@@ end
 //@@ endimpl
 } // verus!
